@@ -39,6 +39,7 @@ type connPlan struct {
 	dropGate     string           // the peer closes the connection when this gate opens (after the CONNACK)
 	noPubcomp    bool             // a PUBREL is not answered on this connection (the QoS 2 flow stays open after PUBREC)
 	dialGate     string           // the Dialer blocks until this gate opens
+	dialDelay    time.Duration    // the Dialer takes this long
 }
 
 // faultFree: the peer of this attempt answers everything promptly and never drops
@@ -178,6 +179,9 @@ func (d *recDialer) Dial(string) (transport.Conn, error) {
 	if plan.dialGate != "" {
 		s.ev("dialwait %d", k)
 		s.waitGate(plan.dialGate)
+	}
+	if plan.dialDelay > 0 {
+		time.Sleep(plan.dialDelay)
 	}
 	if plan.refuse {
 		s.ev("dial %d 0", k)
